@@ -273,6 +273,59 @@ def pass_check(db, fn, edges, through_blocks, exits):
     return (not bad), nfeas, bad
 
 
+def err_dropped(db, fn, cb):
+    """For the call at block cb of fn (a callee returning Result): is there a path on which the call's result is `Err` and fn
+    nevertheless returns a value that does not carry that error?  The error is carried when the value assigned to the return
+    place on that path derives from the call's result (`Err(e)` re-wrapped, `Some(Err(e))`, `?`, or the result returned as is).
+    Returns None if every Err path propagates, else the offending block path."""
+    g = graph(fn)
+    t = fn["blocks"][cb]["t"]
+    if t[4] is None:
+        return None
+    seen = set()
+    work = [(t[4], False, None, [cb])]      # block, on_err_side, last _0 assignment carries the error?, path
+    while work:
+        b, on_err, carries, path = work.pop()
+        key = (b, on_err, carries)
+        if key in seen:
+            continue
+        seen.add(key)
+        blk = fn["blocks"][b]
+        for st in blk["s"]:
+            if st[0] == "=" and st[1][0] == 0 and not st[1][1]:
+                e = cfg.expr_rvalue(fn, st[2])
+                carries = any(x[0] == "call" and len(x) > 3 and x[3] == cb for x in cfg.walk(e))
+        tt = blk["t"]
+        if tt[0] == "call" and tt[3][0] == 0 and not tt[3][1]:
+            e = ("call", tt[1], [cfg.expr_operand(fn, a) for a in tt[2]], b)
+            carries = any(x[0] == "call" and len(x) > 3 and x[3] == cb for x in cfg.walk(e))
+        if tt[0] == "ret":
+            if on_err and not carries:
+                return path + [b]
+            continue
+        for tb, lab in g.succ[b]:
+            nerr = on_err
+            dead = False
+            if tt[0] == "switch":
+                for f in cfg.edge_facts(db, fn, b, tb, lab):
+                    if f[0] != "variant" or not f[4]:
+                        continue
+                    bv = cfg.base_value(f[1])
+                    if bv[0] == "call" and len(bv) > 3 and bv[3] == cb:
+                        inner = cfg.peel(f[1])
+                        is_payload = inner[0] == "field"
+                        if f[3] in ("Ok", "Continue") and not is_payload:
+                            dead = True
+                        elif f[3] in ("Err", "Break") and not is_payload:
+                            nerr = True
+            if dead and not on_err:
+                continue
+            if dead:
+                continue
+            work.append((tb, nerr, carries, path + [b]))
+    return None
+
+
 POP = re.compile(r"^alloc::vec::Vec::pop$|^alloc::collections::vec_deque::VecDeque::(pop_front|pop_back)$|"
                  r"^alloc::collections::btree::set::BTreeSet::(pop_first|pop_last)$|^alloc::collections::binary_heap::BinaryHeap::pop$")
 PUSH = re.compile(r"^alloc::vec::Vec::(push|extend|append|extend_from_slice)$|^alloc::collections::vec_deque::VecDeque::(push_back|push_front|extend)$|"
